@@ -218,6 +218,21 @@ def _tm_histories(sp, tmm, check_pus_crc, Service17Tm, c, stamp, src, want, wo, 
     d1.pack()
     eq(devs, "hist.defaults.second_object_unaffected", bytes(d2.pack()), wdef)
     eq(devs, "hist.defaults.third_object_unaffected", bytes(tmm.PusTm(service=c["service"], subservice=c["subservice"], timestamp=stamp).pack()), wdef)
+    # source data appended through the property with += (in place if the held object is mutable): this packet gets the octets, later default-built ones do not
+    d3 = tmm.PusTm(service=c["service"], subservice=c["subservice"], timestamp=stamp)
+    d3.tm_data += b"\x07\x08"
+    eq(devs, "hist.defaults.source_data_appended_in_place.bytes", bytes(d3.pack()), RP.pus_tm(0, 0, c["service"], c["subservice"], 0, 0, 0, stamp, b"\x07\x08"))
+    eq(devs, "hist.defaults.source_data_appended_in_place.later_object", bytes(tmm.PusTm(service=c["service"], subservice=c["subservice"], timestamp=stamp).pack()), wdef)
+    eq(devs, "hist.defaults.source_data_appended_in_place.empty", bytes(tmm.PusTm.empty().tm_data), b"")
+    # printing is pure: str() / repr() of a never-packed packet change nothing about what is packed after a later field change,
+    # also with recalc_crc=False (no trailer has been computed yet, so one is computed)
+    for printed in (False, True):
+        o = build_tm(tmm, c, stamp, src)
+        if printed:
+            str(o), repr(o), str(o.pus_tm_sec_header), repr(o.sp_header)
+        o.apid = (c["apid"] + 1) % 2048
+        w2 = RP.pus_tm((c["apid"] + 1) % 2048, c["seq"], c["service"], c["subservice"], c["msg_counter"], c["dest_id"], c["time_ref"], stamp, src, ver=c["ver"])
+        eq(devs, f"hist.never_packed_{'printed_then_' if printed else ''}changed.pack_without_recalc", bytes(o.pack(recalc_crc=False)), w2)
     c_src, c_stamp = bytearray(src), bytearray(stamp)
     t = build_tm(tmm, c, c_stamp, c_src)
     eq(devs, "hist.bytearray_inputs.view1", bytes(t.to_space_packet().pack()), want)
